@@ -655,6 +655,18 @@ func (o *opCtx) exec(kind, k int) string {
 			junk := make([]byte, 32)
 			rng.Read(junk)
 			d.addf("junk err=%v", e2.SetBytes(junk) != nil)
+			// small x values (about half of the curve's x are outside the subgroup, a quarter are not on the curve at all):
+			// the checked decoder, then the trusted decoder on the same bytes, then the checked decoder again
+			small := make([]byte, 32)
+			small[31] = byte(1 + rng.Intn(60))
+			var e4 banderwagon.Element
+			first := e4.SetBytes(small) != nil
+			monTry(func() { e4.SetBytesUnsafe(small) })
+			again := e4.SetBytes(small) != nil
+			d.addf("small err=%v err=%v", first, again)
+			if first != again {
+				o.modified("decision-depends-on-history/SetBytes", fmt.Sprintf("SetBytes(x=%d) gives a different verdict after SetBytesUnsafe was called on the same bytes (rejected before: %v, after: %v)", small[31], first, again))
+			}
 			p, err := common.ReadPoint(bytes.NewReader(enc[:]))
 			d.addf("err=%v", err != nil)
 			if p != nil {
